@@ -52,6 +52,7 @@ func newCache(storages []*Storage, logger *apexlog.Logger, now func() time.Time)
 	c := &cache{
 		storages:           storages,
 		waitingReaders:     make(map[string][]*chanWithTime, 10),
+		lockOwners:         make(map[string]uint64, 10),
 		waitingReadersLock: sync.Mutex{},
 		logger:             logger,
 		now:                now,
@@ -72,6 +73,8 @@ func newCache(storages []*Storage, logger *apexlog.Logger, now func() time.Time)
 type cache struct {
 	Cache
 	waitingReaders     map[string][]*chanWithTime
+	lockOwners         map[string]uint64
+	lastLockOwner      uint64
 	waitingReadersLock sync.Mutex
 	storages           []*Storage
 	logger             *apexlog.Logger
@@ -97,7 +100,12 @@ func (c *cache) readerNotifier() {
 		rk := k.FsName()
 		c.logger.Debugf("readerNotifier (%p) got Key: %v / %v", c.closeNotifier, k.host+k.path, rk)
 		c.waitingReadersLock.Lock()
-		if readers, exists := c.waitingReaders[rk]; exists {
+		if readers, exists := c.waitingReaders[rk]; exists && c.lockOwners[rk] != k.lockOwner {
+			// a release by someone who does not hold this lock: a writer's second release after the
+			// key was taken again, or a reader's. The lock stays with its holder.
+			c.logger.Debugf("readerNotifier (%p) ignoring release of %v by a non-holder (%v waiting)", c.closeNotifier, rk, len(readers))
+		} else if exists {
+			delete(c.lockOwners, rk)
 			c.logger.Debugf("readerNotifier (%p) notifying %v (%p) with: %v / %v", c.closeNotifier, len(readers), &c.waitingReaders, k.host+k.path, rk)
 			for i, ct := range readers {
 				c.logger.Debugf("readerNotifier notifying %v, ch (%p)", i, ct.ch)
@@ -187,7 +195,7 @@ func (c *cache) Get(ctx context.Context, cacheId string, forceRevalidate int, sk
 		}
 		k = notFoundPreferredKey(keys)
 		//logctx.Debugf("Miss: %v // %v", k, k.FsName())
-		cr, err := c.getReaderOrWriter(ctx, cacheId, k, w, false, false, logctx)
+		cr, err := c.getReaderOrWriter(ctx, cacheId, &k, w, false, false, logctx)
 		if err != nil {
 			return CacheResult{}, keys[0], err
 		}
@@ -274,7 +282,7 @@ func (c *cache) Get(ctx context.Context, cacheId string, forceRevalidate int, sk
 			logctx.WithError(err).Errorf("Could not close an optimistically opened fd, which then had to be revalidated")
 		}
 
-		cr, err := c.getReaderOrWriter(ctx, cacheId, k, w, true, dirs.CanStaleWhileRevalidate(age), logctx)
+		cr, err := c.getReaderOrWriter(ctx, cacheId, &k, w, true, dirs.CanStaleWhileRevalidate(age), logctx)
 		if err != nil {
 			return CacheResult{}, keys[0], err
 		}
@@ -286,7 +294,7 @@ func (c *cache) Get(ctx context.Context, cacheId string, forceRevalidate int, sk
 	return CacheResult{Found, rc, nil, nil, CacheMetadata{Header: sm.ResponseHeader, Status: sm.Status, Size: sm.Size, FdSize: sm.FdSize, RedirectedURL: sm.RedirectedURL}, age, isStale}, k, nil
 }
 
-func (c *cache) getReaderOrWriter(ctx context.Context, cacheId string, k Key, w http.ResponseWriter, isRevalidating bool, staleWhileRevalidate bool, logctx *apexlog.Logger) (CacheResult, error) {
+func (c *cache) getReaderOrWriter(ctx context.Context, cacheId string, k *Key, w http.ResponseWriter, isRevalidating bool, staleWhileRevalidate bool, logctx *apexlog.Logger) (CacheResult, error) {
 	rk := k.FsName()
 	c.waitingReadersLock.Lock()
 	//c.logger.Debugf("Checking if %v exists", rk)
@@ -295,7 +303,7 @@ func (c *cache) getReaderOrWriter(ctx context.Context, cacheId string, k Key, w 
 		if isRevalidating && staleWhileRevalidate {
 			c.waitingReadersLock.Unlock()
 			c.logger.Debugf("Released lock for stale reader attempt: %v", rk)
-			cr, _, _ := c.Get(ctx, cacheId, 0, true, []Key{k}, w, logctx)
+			cr, _, _ := c.Get(ctx, cacheId, 0, true, []Key{*k}, w, logctx)
 			return cr, nil
 		}
 		defer c.waitingReadersLock.Unlock()
@@ -315,9 +323,14 @@ func (c *cache) getReaderOrWriter(ctx context.Context, cacheId string, k Key, w 
 		return CacheResult{kind, nil, nil, &wc, CacheMetadata{}, 0, false}, nil
 	} else {
 		c.waitingReaders[rk] = make([]*chanWithTime, 0)
+		c.lastLockOwner++
+		c.lockOwners[rk] = c.lastLockOwner
+		k.lockOwner = c.lastLockOwner
 		defer c.waitingReadersLock.Unlock()
-		cw := c.getWriter(cacheId, k, isRevalidating)
+		cw := c.getWriter(cacheId, *k, isRevalidating)
 		if cw == nil {
+			delete(c.waitingReaders, rk)
+			delete(c.lockOwners, rk)
 			return CacheResult{NotFoundWriter, nil, nil, nil, CacheMetadata{}, 0, false}, errors.New("Could not get writer")
 		}
 		writer := NewCachingResponseWriter(w, cw, logctx)
@@ -421,6 +434,9 @@ type Key struct {
 	opaqueOrigin    bool
 	storedHeaders   http.Header
 	originalHeaders http.Header
+	// lockOwner identifies the acquisition of the key's lock this key was handed out under
+	// (0: none). Only the holder of that acquisition releases the lock.
+	lockOwner uint64
 }
 
 func KeysFromRequest(r *http.Request) []Key {
